@@ -41,6 +41,22 @@ static i128 exact_op(char op, i128 x, i128 y, i128 lo, i128 hi, bool& representa
 }
 template <class T> static const char* sgn(T v) { return v < 0 ? "n" : v == 0 ? "z" : "p"; }
 
+static unsigned long long g_ops = 0;
+static std::vector<void (*)()> g_flush;
+template <class T> struct ClassTable {
+  static ClassTable* self;
+  char seen[3][2][3][3] = {};
+  ClassTable() { self = this; g_flush.push_back(&ClassTable::flush); }
+  static void flush() {
+    static const char OPS[] = "+-*"; static const char* SG[] = {"n", "z", "p"};
+    for (int o = 0; o < 3; ++o) for (int t = 0; t < 2; ++t) for (int x = 0; x < 3; ++x) for (int y = 0; y < 3; ++y)
+      if (self->seen[o][t][x][y])
+        R.classes.insert(std::string(tname<T>()) + OPS[o] + (t ? ":overflow:" : ":exact:") + SG[x] + SG[y]);
+  }
+};
+template <class T> ClassTable<T>* ClassTable<T>::self = nullptr;
+template <class T> static ClassTable<T>& class_table() { static ClassTable<T> t; return t; }
+
 // one binary operation: compare against the exact result
 template <class T, class F>
 static inline void check_op(char op, T a, T b, F f) {
@@ -48,7 +64,7 @@ static inline void check_op(char op, T a, T b, F f) {
                                              (i128)std::numeric_limits<T>::max(), representable);
   bool threw = false; T got = 0;
   try { got = val(f(mp::SafeInt<T>(a), mp::SafeInt<T>(b))); } catch (const mp::OverflowError&) { threw = true; }
-  R.stats["ops"]++;
+  ++g_ops;
   const char* kind = nullptr;
   if (representable) {
     if (threw) kind = exact == (i128)std::numeric_limits<T>::min() && std::is_signed<T>::value
@@ -62,9 +78,9 @@ static inline void check_op(char op, T a, T b, F f) {
                 "{\"type\":\"" + std::string(tname<T>()) + "\",\"op\":\"" + op + "\",\"a\":\"" + s128(a) +
                 "\",\"b\":\"" + s128(b) + "\"}");
   }
-  static thread_local std::string c;
-  c = std::string(tname<T>()) + op + (threw ? ":overflow:" : ":exact:") + sgn(a) + sgn(b);
-  R.classes.insert(c);
+  // observation class (type, op, outcome, operand signs): counted in a flat table, named when flushed
+  ClassTable<T>& tab = class_table<T>();
+  tab.seen[op == '+' ? 0 : op == '-' ? 1 : 2][threw ? 1 : 0][a < 0 ? 0 : a == 0 ? 1 : 2][b < 0 ? 0 : b == 0 ? 1 : 2] = 1;
 }
 
 template <class T> static void all_ops(T a, T b) {
@@ -73,12 +89,32 @@ template <class T> static void all_ops(T a, T b) {
   check_op<T>('*', a, b, [](mp::SafeInt<T> x, mp::SafeInt<T> y) { return x * y; });
 }
 
-// all pairs of a small type
+// all pairs of an 8-bit type; for a 16-bit type (thorough) every value paired with a dense lattice of values, in both
+// operand orders (all 2^32 pairs cost ~7 CPU hours under the sanitizers because most of them throw)
+template <class T> static std::vector<long> dense16() {
+  long lo = std::numeric_limits<T>::min(), hi = std::numeric_limits<T>::max();
+  std::set<long> s;
+  auto add = [&](long v) { if (v >= lo && v <= hi) s.insert(v); };
+  for (long d = 0; d <= 300; ++d) { add(d); add(-d); add(lo + d); add(hi - d); }
+  for (int k = 1; k < 16; ++k) for (long d = -3; d <= 3; ++d) { add((1L << k) + d); add(-(1L << k) + d); }
+  for (long q : {3L, 5L, 7L, 10L, 100L, 181L, 182L, 255L, 256L}) for (long d = -2; d <= 2; ++d) { add(hi / q + d); add(lo / q + d); }
+  for (long v = lo; v <= hi; v += 61) add(v);
+  return std::vector<long>(s.begin(), s.end());
+}
 template <class T> static void exhaustive_pairs() {
   long lo = std::numeric_limits<T>::min(), hi = std::numeric_limits<T>::max();
-  for (long a = lo; a <= hi; ++a) {
-    if (!S.mine(a - lo)) continue;
-    for (long b = lo; b <= hi; ++b) all_ops<T>((T)a, (T)b);
+  if (sizeof(T) == 1) {
+    for (long a = lo; a <= hi; ++a) {
+      if (!S.mine(a - lo)) continue;
+      for (long b = lo; b <= hi; ++b) all_ops<T>((T)a, (T)b);
+    }
+  } else {
+    std::vector<long> D = dense16<T>(); std::vector<char> inD(hi - lo + 1, 0); for (long v : D) inD[v - lo] = 1;
+    for (long a = lo; a <= hi; ++a) {
+      if (!S.mine(a - lo)) continue;
+      for (long b : D) { all_ops<T>((T)a, (T)b); if (!inD[a - lo]) all_ops<T>((T)b, (T)a); }
+    }
+    R.stats[std::string("dense16_values_") + tname<T>()] = (long long)D.size();
   }
   R.stats[std::string("pairs_exhaustive_") + tname<T>()] += 0;
 }
@@ -174,6 +210,7 @@ int main(int argc, char** argv) {
       if (op=='*') check_op<T>('*',(T)a,(T)b,[](mp::SafeInt<T> x, mp::SafeInt<T> y){return x*y;}); }
     ONE(signed char) ONE(unsigned char) ONE(short) ONE(unsigned short) ONE(int) ONE(unsigned) ONE(long)
     ONE(unsigned long) ONE(long long) ONE(unsigned long long)
+    R.stats["ops"] += g_ops; for (auto f : g_flush) f();
     R.done(); return 0;
   }
   exhaustive_pairs<signed char>(); exhaustive_pairs<unsigned char>();
@@ -192,6 +229,7 @@ int main(int argc, char** argv) {
     R.sample("{\"type\":\"uint8\",\"op\":\"-\",\"a\":3,\"b\":5,\"exact\":-2,\"expect\":\"OverflowError\"}");
     R.sample("{\"conv\":\"SafeInt<int>(unsigned long long)\",\"v\":\"18446744073709551615\"}");
   }
+  R.stats["ops"] += g_ops; for (auto f : g_flush) f();
   R.done();
   return 0;
 }
